@@ -265,6 +265,44 @@ func genScenario(r *rand.Rand, id int, class string) *Scenario {
 		for i := 0; i < 2+r.Intn(4); i++ {
 			sc.Faults = append(sc.Faults, Fault{AtUs: 2000 + r.Int63n(int64(k)*300), Kind: "idle", N: 1})
 		}
+	case "mixedexit": // the contents of batchCommandsCh when the send loop EXITS: while the loop is held in getClientAndSend
+		// (repo failpoint mockBatchClientSendDelay) a MIXED sequence of sync calls and async calls without deadline piles up
+		// in the channel -- a sync entry ahead of async ones, async ones between sync ones -- and the pool is closed (Close /
+		// CloseAddr) or its idle timer fires; when the loop comes back its select picks the exit or a queued entry at random.
+		// Every queued async entry must be failed by the drain whatever stands in front of it (seed C18-10).
+		sc.NHosts = 1
+		sc.DelayUs, sc.Reorder = 200, 0
+		hold := 25 + r.Intn(15)
+		sc.Callers = append(sc.Callers, CallerSpec{Kind: 0, TimeoutMs: normalTo, CancelUs: -1, StartUs: 0}) // establishes the stream
+		sc.Faults = append(sc.Faults, Fault{AtUs: 6000, Kind: "senddelay", N: hold})
+		sc.Callers = append(sc.Callers, CallerSpec{Kind: r.Intn(4), TimeoutMs: 400, CancelUs: -1, StartUs: 8000}) // keeps the loop busy
+		t := int64(11000)
+		k := 2 + r.Intn(7)
+		first := r.Intn(4) // mostly a sync entry at the head of the queue
+		for i := 0; i < k; i++ {
+			as := r.Intn(2) == 0
+			if i == 0 {
+				as = first == 0
+			}
+			if i == 1 && first != 0 {
+				as = true
+			}
+			cs := CallerSpec{Kind: r.Intn(4), TimeoutMs: 400, CancelUs: -1, StartUs: t, Async: as, Long: as}
+			if as && r.Intn(6) == 0 {
+				cs.Long = false // an async call with a deadline
+			}
+			sc.Callers = append(sc.Callers, cs)
+			t += 600 + r.Int63n(900) // spaced: the order in the channel is the order of the starts
+		}
+		at := t + 1000 + r.Int63n(3000)
+		switch r.Intn(3) {
+		case 0:
+			sc.Faults = append(sc.Faults, Fault{AtUs: at, Kind: "close"})
+		case 1:
+			sc.Faults = append(sc.Faults, Fault{AtUs: at, Kind: "closeaddr"})
+		default:
+			sc.Faults = append(sc.Faults, Fault{AtUs: at, Kind: "idle", N: 1})
+		}
 	case "regen": // the pool of the address is closed by CloseAddr and re-created by the next call, two or three times, during
 		// traffic: every GENERATION of the pool is followed white-box (each starts its ids at 1 again); sync calls, async
 		// calls with deadline and (when nothing is killed) async calls without deadline
